@@ -437,6 +437,11 @@ func ruleNoPanicInReceive(c *core.Ctx) {
 	cg := c.VTA()
 	seen := map[*ssa.Function]bool{}
 	var q []*ssa.Function
+	// consumers registered with a filter that never matches cannot be invoked
+	var dead map[*ssa.Function]bool
+	if a := getEP(c, rule); a != nil {
+		dead = deadConsumers(c, a)
+	}
 	for _, r := range roots {
 		seen[r] = true
 		q = append(q, r)
@@ -454,7 +459,7 @@ func ruleNoPanicInReceive(c *core.Ctx) {
 				continue
 			}
 			p := callee.Pkg.Pkg.Path()
-			if strings.Contains(p, "/examples/") || strings.Contains(p, "/cmd/") || c.IsTestFile(callee) {
+			if strings.Contains(p, "/examples/") || strings.Contains(p, "/cmd/") || c.IsTestFile(callee) || dead[callee] {
 				continue
 			}
 			seen[callee] = true
@@ -466,7 +471,6 @@ func ruleNoPanicInReceive(c *core.Ctx) {
 	allowed := map[string]string{
 		"bus.pendingObject.Activate":      "Activate is never called on the placeholder; not on the message path (CHA edge through Actor.Activate only)",
 		"bus.proxy.ProxyService":          "client-side API misuse guard (type assertion on the client implementation), not reachable from a received message",
-		"bus/session.Session.client$2":    "consumer of a handler whose filter never matches (filter returns false): cannot be invoked",
 		"type/conversion.IsConvertibleInto": "unimplemented helper, not called",
 		"meta/signature.NewMetaObjectType": "init-time check of a compile-time constant signature",
 		"meta/idl.InterfaceType.Reader":    "call-graph artefact: InterfaceType values are built only by the IDL parser; signature.Parse (the only producer of Types on the message path) never yields one, the edge comes from field-based type propagation through ListType.value",
